@@ -154,7 +154,8 @@ def ratio_effect(ctx, rng):
     base = {"waiting_seconds_mean": 0.5, "num_pipelines": 4, "num_operators": 6, "num_segs": 1, "random_seed": rng.randint(0, 10 ** 6),
             "interactive_prob": 0.3, "query_prob": 0.1, "batch_prob": 0.6, "ticks_per_second": 10}
     seqs = {}
-    for r in (0.0, 1.0):
+    ladder = (0.0, 0.25, 0.5, 0.75, 1.0)
+    for r in ladder:
         _, _, out = run_generator({**base, "cpu_io_ratio": r}, 400, record=False)
         seq = []
         for ps in out:
@@ -166,8 +167,17 @@ def ratio_effect(ctx, rng):
         seqs[r] = seq
     ctx.coverage["evaluations"] += 1
     ctx.sit("ratio_pairs")
-    a, b = seqs[0.0], seqs[1.0]
     case = {"params": base}
+    # every step of the ladder (also the steps that start at 0 or end at 1): same structure, never more I/O-heavy
+    for lo, hi in zip(ladder, ladder[1:]):
+        x, y = seqs[lo], seqs[hi]
+        if [len(i) for i in x] != [len(i) for i in y]:
+            return viol(ctx, "ratio-changes-structure", "changing cpu_io_ratio changed the number of pipelines or operators", {**case, "from": lo, "to": hi})
+        lx = [v for idx in x for v in idx[1:] if v != 99]
+        ly = [v for idx in y for v in idx[1:] if v != 99]
+        if any(q < p_ for p_, q in zip(lx, ly)):
+            return viol(ctx, "ratio-not-monotone", f"raising cpu_io_ratio from {lo} to {hi} made a later operator more I/O-heavy for the same draw", {**case, "from": lo, "to": hi})
+    a, b = seqs[0.0], seqs[1.0]
     if [len(x) for x in a] != [len(x) for x in b]:
         return viol(ctx, "ratio-changes-structure", "changing cpu_io_ratio changed the number of pipelines or operators", case)
     later_a = [x for idx in a for x in idx[1:] if x != 99]
